@@ -72,6 +72,20 @@ Theorem rhs_text_is_mass_action :
 Proof. intros R rO rI radd rmul rsub ropp Rth. exact (rhs_text_lemma R rO rI radd rmul rsub ropp Rth). Qed.
 Print Assumptions rhs_text_is_mass_action.
 
+(* the temperature row is written "(gamma - 1.0) * ( SUM ) / kerg / npar": for every list of
+   heating / cooling terms this text parses to exactly that quotient, and SUM evaluates
+   to the heating terms minus the cooling terms *)
+Theorem thermal_text_is_wrapped_difference :
+  forall (R : Type) (rO rI : R) (radd rmul rsub : R -> R -> R) (ropp : R -> R),
+  ring_theory rO rI radd rmul rsub ropp (@eq R) ->
+  forall (E : env R) (i : ode_input) (ts : list tterm),
+  wf_input i -> has_thermal i = true -> tterms_of (rhs_row i (i_nspec i)) = Some ts ->
+  exists inner, parse (wrapped_txt ts) = Some (wrap_ex inner) /\
+    den R rO radd rmul rsub E inner =
+    rsub (therm_sum R rO rI radd rmul E (e_kh R E) 0 (i_heat i)) (therm_sum R rO rI radd rmul E (e_kc R E) 0 (i_cool i)).
+Proof. intros R rO rI radd rmul rsub ropp Rth. exact (thermal_text_lemma R rO rI radd rmul rsub ropp Rth). Qed.
+Print Assumptions thermal_text_is_wrapped_difference.
+
 (* non-vacuity: the text of H + H -> H2 (slot 0 = H, reaction 0) with the digits and
    macro names written out *)
 Theorem rhs_text_example :
